@@ -365,5 +365,50 @@ def r8_nodetype(chk):
     r7_nodetype(chk, rule='C03.R8')
 
 
+def r9_revision_time(chk):
+    model = chk.model
+    ci = model.cls(INTER, 'IntermediateCodeGen')
+    o, fn = ci.find_method('genTime')
+    chk.subject(fn, 'IntermediateCodeGen.genTime')
+    chk.doc('C03.R9', 'genTime: an 11-character ExtUTCTime (YYMMDDHHMMZ) is prefixed with the century 19 (RFC 2578 '
+                      'section 2) and every time string is parsed with the four-digit-year format %Y%m%d%H%MZ and '
+                      'rendered as %Y-%m-%d %H:%M; genRevisions uses it for every revision in order')
+    fmts = [norm(c.args[1]) for c in walk_no_nested(fn) if isinstance(c, ast.Call) and dotted_name(c.func) == 'strptime'
+            and len(c.args) == 2]
+    chk.ob('C03.R9', 'genTime/parse-format', bool(fmts) and set(fmts) == set(["'%Y%m%d%H%MZ'"]), where(ci.mod, fn),
+           'time strings are parsed with %s' % sorted(set(fmts)))
+    outs = [norm(c.args[0]) for c in walk_no_nested(fn) if isinstance(c, ast.Call) and dotted_name(c.func) == 'strftime']
+    chk.ob('C03.R9', 'genTime/render-format', bool(outs) and set(outs) == set(["'%Y-%m-%d %H:%M'"]), where(ci.mod, fn),
+           'times are rendered with %s' % sorted(set(outs)))
+    short = [n for n in walk_no_nested(fn) if isinstance(n, ast.If) and common.pmatch(n.test, 'len($t) == 11') is not None]
+    ok = len(short) == 1 and len(short[0].body) == 1 and \
+        common.pmatch(short[0].body[0], "$t = '19' + $t") is not None
+    chk.ob('C03.R9', 'genTime/two-digit-year', ok, where(ci.mod, fn),
+           'a two-digit year must be completed with the century 19')
+    o2, gr = ci.find_method('genRevisions')
+    ok = any(common.pmatch(s, "$r['revision'] = self.genTime([$x[0]])[0]") is not None for s in walk_no_nested(gr)
+             if isinstance(s, ast.Assign))
+    lp = [n for n in gr.body if isinstance(n, ast.For)]
+    ok = ok and len(lp) == 1 and norm(lp[0].iter) == '%s[0]' % gr.args.args[1].arg
+    chk.ob('C03.R9', 'genRevisions/uses-genTime-in-order', ok, where(ci.mod, gr), '')
+    cl = ir.clause_model(model)['moduleIdentityClause']
+    st = [s for s in cl.stores if s.key == ('revisions',)]
+    chk.ob('C03.R9', 'genModuleIdentity/revisions-stored', len(st) == 1, where(ci.mod, cl.fn), '')
+
+
+def r10_per_module_state(chk):
+    """records of one module must not depend on the module generated before: shared with C12.R2/R3"""
+    from vt.runner import Check
+    from rules.C12 import r2_generator_reset
+    chk.doc('C03.R10', 'every attribute the handlers write (columns, rows, seen symbols, import map, records, revision) '
+                       'is re-initialised at the start of genCode in both generators (C12.R2)')
+    tmp = Check(chk.prop, chk.tier, chk.model, chk.repo)
+    r2_generator_reset(tmp)
+    for o in tmp.obligations:
+        if o.rule == 'C12.R2' and (o.key.startswith('SymtableCodeGen/') or o.key.startswith('IntermediateCodeGen/')):
+            chk.ob('C03.R10', o.key, o.ok, o.where, o.detail)
+    chk.floor('C03.R10', 12, 'attributes of the two generators')
+
+
 RULES = [r1_kinds, r2_one_registration, r3_classes, r4_field_provenance, r5_emission, r6_transopers_siblings,
-         r7_json_document, r8_nodetype]
+         r7_json_document, r8_nodetype, r9_revision_time, r10_per_module_state]
